@@ -342,7 +342,9 @@ pub fn run(tier: Tier) -> i32 {
     ]));
 
     // 1-D estimators for every n
-    let ns: Vec<usize> = (3..=tier.pick(400, 1000)).collect();
+    let mut ns: Vec<usize> = (3..=tier.pick(400, 1000)).collect();
+    // beyond the contiguous range: thousands of chromosomes
+    ns.extend(if tier.thorough() { vec![1024, 2000, 4096, 5000, 20_000, 65_537] } else { vec![1024, 2000, 5000] });
     let res = par_map(ns.len(), |i| estimators_1d(ns[i]));
     let mut ev = 0;
     for (e, v) in res {
@@ -355,7 +357,7 @@ pub fn run(tier: Tier) -> i32 {
         name: "lib: 1-D estimators for every n".into(),
         evaluations: ev,
         nontrivial: ev,
-        note: format!("n = 3..{}: pi, theta, Tajima's D, Fu & Li's D, S, sum on basis (all cells for n<=60, boundary cells incl. 170..172 above), two-cell (n<=12), neutral / ramp / singleton-excess / high-frequency-excess spectra", ns[ns.len() - 1]),
+        note: format!("n = 3..{} and a ladder up to 5 000 (thorough 65 537): pi, theta, Tajima's D, Fu & Li's D, S, sum on basis (all cells for n<=60, boundary cells incl. 170..172 above), two-cell (n<=12), neutral / ramp / singleton-excess / high-frequency-excess spectra", tier.pick(400, 1000)),
         exhaustive: true,
         extra: vec![],
     });
